@@ -292,7 +292,93 @@ Proof.
   all: try (exfalso; apply Nat.eqb_neq in HNB; apply Nat.ltb_ge in Heqb; lia).
   all: try (exfalso; discriminate (HZ eq_refl)).
   all: try (match goal with Hn : length (dq ?st) = S ?n |- _ => replace (S n) with (length (dq st)) by lia end;
-            left; unfold measure; simpl; rewrite E, skipn_all; simpl; unfold KK; lia).
+            left; unfold measure; cbn [lp hp dq set_lp set_batch]; rewrite E, skipn_all;
+            unfold tickf; cbn [existsb length]; unfold KK; lia).
   all: try (match goal with Hd : dq ?st = _ |- _ => left; unfold measure; simpl; rewrite E, Hd end;
             simpl; rewrite ?app_length; simpl; unfold KK; lia).
+Qed.
+
+(* ------------------------------------------------------------------ running the loop thread alone *)
+Definition drained (s : state) : bool := match fpend s with [] => true | _ => false end.
+
+(* at most n steps of the loop thread, no other thread moves; it refuses to leave a blocked wait
+   (= it never uses a Timeout transition) and stops as soon as no foreign event is queued *)
+Fixpoint lrun (n : nat) (s : state) : option state :=
+  if drained s then Some s
+  else match n with
+       | O => None
+       | S n' =>
+           if blocked s then None
+           else match lstep (lnext s) s with
+                | Some s' => lrun n' s'
+                | None => None
+                end
+       end.
+
+Lemma lstep_fts a s s' : lstep a s = Some s' -> fts s' = fts s.
+Proof. intros H. lstep_cases H; reflexivity. Qed.
+
+Lemma reachable_step m s ta s' : reachable m s -> step s ta = Some s' -> reachable m s'.
+Proof.
+  intros [tr Htr] Hs. exists (tr ++ [ta]). rewrite run_app, Htr. simpl. rewrite Hs. reflexivity.
+Qed.
+
+Lemma lrun_ok : forall n m s, reachable m s -> all_idle s -> measure s < n ->
+  exists s', lrun n s = Some s' /\ fpend s' = [] /\ fts s' = fts s /\ reachable m s'.
+Proof.
+  induction n as [|n IH]; intros m s Hr Hi Hm; [lia|].
+  simpl. unfold drained. destruct (fpend s) as [|e l] eqn:Ef.
+  - exists s. auto.
+  - assert (Hf : fpend s <> []) by (rewrite Ef; discriminate).
+    rewrite (not_blocked m s Hr Hi Hf).
+    pose proof (canon_step m s Hr Hi Hf) as Hc.
+    destruct (lstep (lnext s) s) as [s1|] eqn:E1; [|contradiction].
+    assert (Hr1 : reachable m s1) by (eapply reachable_step with (ta := (0, lnext s)); [exact Hr|exact E1]).
+    pose proof (lstep_fts _ _ _ E1) as Hfts.
+    assert (Hi1 : all_idle s1) by (intros i; rewrite Hfts; apply Hi).
+    destruct Hc as [Hlt|Hd].
+    + destruct (IH m s1 Hr1 Hi1 ltac:(lia)) as [s' (A & B & C & D)].
+      exists s'. repeat split; auto. congruence.
+    + exists s1. repeat split; auto. destruct n; simpl; unfold drained; rewrite Hd; reflexivity.
+Qed.
+
+(* From every reachable state in which every firing thread is outside fire(), the loop thread alone
+   reaches a state without queued foreign events in at most [measure s + 1] of its own steps, never
+   stepping out of a blocked wait. *)
+Theorem progress : forall m s, reachable m s -> all_idle s ->
+  exists s', lrun (S (measure s)) s = Some s' /\ fpend s' = [] /\ fts s' = fts s /\ reachable m s'.
+Proof. intros m s Hr Hi. apply lrun_ok; auto. Qed.
+
+(* every foreign event that was queued has then been handed to the dispatcher, in firing order *)
+Theorem progress_dispatched : forall m s, reachable m s -> all_idle s ->
+  exists s', lrun (S (measure s)) s = Some s' /\
+             forall i, proj i (disp s') = map (EvF i) (seq 0 (fapp (fts s i))).
+Proof.
+  intros m s Hr Hi. destruct (progress m s Hr Hi) as [s' (A & B & C & D)]. exists s'. split; [exact A|].
+  intros i. rewrite <- C. rewrite <- (exactly_once_in_order m s' D i). rewrite proj_app.
+  assert (Hp : proj i (pending s') = []).
+  { unfold fpend in B. unfold proj. clear - B. induction (pending s') as [|e l IH]; simpl in *; [reflexivity|].
+    destruct e; simpl in *; try discriminate; auto. }
+  rewrite Hp, app_nil_r. reflexivity.
+Qed.
+
+(* the same run as a trace of the transition system: only loop-thread actions, at most measure+1 of them *)
+Lemma lrun_trace : forall n s s', lrun n s = Some s' ->
+  exists tr, length tr <= n /\ run s (map (fun a => (0, a)) tr) = Some s'.
+Proof.
+  induction n as [|n IH]; intros s s' H; simpl in H.
+  - destruct (drained s); [|discriminate]. inversion H; subst. exists []. simpl. auto.
+  - destruct (drained s).
+    + inversion H; subst. exists []. simpl. split; [lia|reflexivity].
+    + destruct (blocked s); [discriminate|].
+      destruct (lstep (lnext s) s) as [s1|] eqn:E; [|discriminate].
+      destruct (IH _ _ H) as [tr [Hl Hrun]]. exists (lnext s :: tr). split; [simpl; lia|].
+      simpl. unfold step. simpl. rewrite E. exact Hrun.
+Qed.
+
+Theorem progress_trace : forall m s, reachable m s -> all_idle s ->
+  exists tr s', length tr <= S (measure s) /\ run s (map (fun a => (0, a)) tr) = Some s' /\ fpend s' = [].
+Proof.
+  intros m s Hr Hi. destruct (progress m s Hr Hi) as [s' (A & B & _)].
+  destruct (lrun_trace _ _ _ A) as [tr [Hl Hrun]]. exists tr, s'. auto.
 Qed.
